@@ -529,7 +529,11 @@ def c19_run(rng):
         lab = i + 1
         labels.append(lab)
         kind = rng.choice(["raw", "raw", "cli", "main"])
-        if kind == "raw":
+        if kind == "raw" and rng.random() < 0.2:
+            seq = [{"op": "connect", "c": lab, "w": 80, "hs": rng.choice(["none", "garbage", "nokey", "partial"])}]
+            if rng.random() < 0.8:
+                seq.append({"op": "close", "c": lab, "how": rng.choice(["close", "close", "eof", "abort"])})
+        elif kind == "raw":
             seq = [{"op": "connect", "c": lab, "w": 80}]
             for _ in range(rng.choice([0, 1, 2, 3])):
                 seq.append({"op": "line", "c": lab, "text": rng.choice(["num-running", "is-locked", "pool-size", "-h", "bogus", "lock", "unlock"])})
@@ -569,7 +573,7 @@ def _final_c19(sim):
         return
     # every raw client that is still connected was answered line by line
     for c in sim.clients.values():
-        if c.kind == "raw" and c.connected and not c.gone and not sim.stopped:
+        if c.kind == "raw" and c.connected and not c.gone and not sim.stopped and not c.bad_handshake:
             if len(c.replies()) != len(c.lines):
                 sim.violate("C19", "client_not_served", f"client {c.label}: {len(c.replies())} replies for {len(c.lines)} lines while the server is up")
     for c in sim.clients.values():
